@@ -324,7 +324,7 @@ def run_ops(case):
 
     a, b, o = build(a_l), build(b_l), build(o_l)
     # labels may also be given as str; the limits are about octets (UTF-8 for str labels)
-    for mult, ch in ((1, "a"), (2, "\u00e9"), (3, "\u20ac"), (4, "\U0001F600")):
+    for mult, ch in ((1, "a"), (2, "\u00e9"), (3, "\u20ac"), (4, "\U0001F600")) if case["depth"] % 4 == 0 else ():
         for n in sorted({case["depth"] % 70 + 1, 63 // mult, 63 // mult + 1, 64}):
             sl = [ch * n, "x", ""]
             bad = _valid([x.encode() for x in sl])
